@@ -296,7 +296,8 @@ type voteOut struct {
 	Accepted bool     `json:"accepted"`
 	Err      string   `json:"err,omitempty"`
 	Events   []string `json:"events,omitempty"`
-	AttKey   string   `json:"att_key,omitempty"` // skyway store key (hex) of the attestation record the vote created / changed
+	AttKey   string   `json:"att_key,omitempty"`  // skyway store key (hex) of the attestation record the vote created / changed
+	AttKeys  []string `json:"att_keys,omitempty"` // all of them, sorted (more than one would be remarkable)
 }
 
 type runOut struct {
@@ -366,70 +367,88 @@ func (w *wstate) masked(store string, key []byte) bool {
 	return false
 }
 
-// run: submit the votes in order through the real Msg service router (per-message atomicity as in
-// baseapp.runMsgs), then the real skyway end-blocker (tally + application), all on a throw-away
-// fork of the base state; returns what can be observed.
-func (w *wstate) run(votes []vote) (out runOut) {
-	ctx := w.c.Fork(w.forkHeight, w.forkTime)
-	w.c.Log.Drain()
-	defer func() {
-		if e := recover(); e != nil {
-			out.Panic = fmt.Sprint(e)
-		}
-	}()
-	for _, v := range votes {
-		vo := voteOut{Voter: v.voter.Name}
-		msg, err := prepareVote(v.claim, v.voter)
-		if err != nil {
-			vo.Err = "harness: " + err.Error()
-			out.Votes = append(out.Votes, vo)
-			continue
-		}
-		before := w.attRecords(ctx)
-		func() {
-			defer func() {
-				if e := recover(); e != nil {
-					vo.Err = fmt.Sprintf("PANIC: %v", e)
-				}
-			}()
-			h := w.c.App.MsgServiceRouter().Handler(msg)
-			if h == nil {
-				vo.Err = "no handler"
-				return
-			}
-			cctx, write := ctx.WithEventManager(sdk.NewEventManager()).CacheContext()
-			res, err := h(cctx, msg)
-			if err != nil {
-				vo.Err = err.Error()
-				return
-			}
-			write()
-			vo.Accepted = true
-			if res != nil {
-				for _, e := range res.Events {
-					e := e
-					vo.Events = append(vo.Events, evString(e.Type, len(e.Attributes), func(i int) (string, string) { return e.Attributes[i].Key, e.Attributes[i].Value }))
-				}
+// castVote submits one vote through the real Msg service router (ValidateBasic -> msg server ->
+// Attest) with per-message atomicity as in baseapp.runMsgs, and observes which attestation records
+// of the skyway store the vote created / changed.
+func (w *wstate) castVote(ctx sdk.Context, v vote) voteOut {
+	vo := voteOut{Voter: v.voter.Name}
+	msg, err := prepareVote(v.claim, v.voter)
+	if err != nil {
+		vo.Err = "harness: " + err.Error()
+		return vo
+	}
+	before := w.attRecords(ctx)
+	func() {
+		defer func() {
+			if e := recover(); e != nil {
+				vo.Err = fmt.Sprintf("PANIC: %v", e)
 			}
 		}()
-		if vo.Accepted {
-			after := w.attRecords(ctx)
-			for k, val := range after {
-				if before[k] != val {
-					vo.AttKey = k
-				}
+		h := w.c.App.MsgServiceRouter().Handler(msg)
+		if h == nil {
+			vo.Err = "no handler"
+			return
+		}
+		cctx, write := ctx.WithEventManager(sdk.NewEventManager()).CacheContext()
+		res, err := h(cctx, msg)
+		if err != nil {
+			vo.Err = err.Error()
+			return
+		}
+		write()
+		vo.Accepted = true
+		if res != nil {
+			for _, e := range res.Events {
+				e := e
+				vo.Events = append(vo.Events, evString(e.Type, len(e.Attributes), func(i int) (string, string) { return e.Attributes[i].Key, e.Attributes[i].Value }))
 			}
 		}
-		out.Votes = append(out.Votes, vo)
+	}()
+	if vo.Accepted {
+		after := w.attRecords(ctx)
+		for k, val := range after {
+			if before[k] != val {
+				vo.AttKeys = append(vo.AttKeys, k)
+			}
+		}
+		sort.Strings(vo.AttKeys)
+		if n := len(vo.AttKeys); n > 0 {
+			vo.AttKey = vo.AttKeys[n-1]
+		}
 	}
+	return vo
+}
+
+// endBlock runs the real skyway end-blocker (tally + application) and returns its events.
+func (w *wstate) endBlock(ctx sdk.Context) (events []string, warn []string) {
 	em := sdk.NewEventManager()
 	if err := w.skywayEnd.EndBlock(ctx.WithEventManager(em)); err != nil {
-		out.Warn = append(out.Warn, "EndBlock error: "+err.Error())
+		warn = append(warn, "EndBlock error: "+err.Error())
 	}
-	out.EndEvents = evStrings(em.Events())
-	out.Delta = map[string]string{}
+	return evStrings(em.Events()), warn
+}
+
+// snapshot: all key/value pairs of all KV stores under ctx.
+func (w *wstate) snapshot(ctx sdk.Context) map[string]map[string][]byte {
+	out := map[string]map[string][]byte{}
 	for _, n := range w.storeNames {
-		b := w.base[n]
+		m := map[string][]byte{}
+		it := w.c.KVStore(ctx, n).Iterator(nil, nil)
+		for ; it.Valid(); it.Next() {
+			m[string(it.Key())] = append([]byte{}, it.Value()...)
+		}
+		it.Close()
+		out[n] = m
+	}
+	return out
+}
+
+// delta: every key of every KV store whose value under ctx differs from the snapshot, masked keys
+// removed (and counted).
+func (w *wstate) delta(ctx sdk.Context, base map[string]map[string][]byte) (delta map[string]string, masked int) {
+	delta = map[string]string{}
+	for _, n := range w.storeNames {
+		b := base[n]
 		seen := 0
 		st := w.c.KVStore(ctx, n)
 		it := st.Iterator(nil, nil)
@@ -443,29 +462,177 @@ func (w *wstate) run(votes []vote) (out runOut) {
 				}
 			}
 			if w.masked(n, k) {
-				out.Masked++
+				masked++
 				continue
 			}
-			out.Delta[n+"/"+hex.EncodeToString(k)] = hex.EncodeToString(v)
+			delta[n+"/"+hex.EncodeToString(k)] = hex.EncodeToString(v)
 		}
 		it.Close()
 		if seen != len(b) { // some base keys were deleted
 			for k := range b {
 				if !st.Has([]byte(k)) {
 					if w.masked(n, []byte(k)) {
-						out.Masked++
+						masked++
 						continue
 					}
-					out.Delta[n+"/"+hex.EncodeToString([]byte(k))] = "<deleted>"
+					delta[n+"/"+hex.EncodeToString([]byte(k))] = "<deleted>"
 				}
 			}
 		}
 	}
+	return delta, masked
+}
+
+func (w *wstate) drainWarn() []string {
+	var out []string
 	for _, l := range w.c.Log.Drain() {
 		if l.Level != "INFO" {
-			out.Warn = append(out.Warn, l.String())
+			out = append(out, l.String())
 		}
 	}
+	return out
+}
+
+// run: submit the votes in order through the real Msg service router (per-message atomicity as in
+// baseapp.runMsgs), then the real skyway end-blocker (tally + application), all on a throw-away
+// fork of the base state; returns what can be observed.
+func (w *wstate) run(votes []vote) (out runOut) {
+	out, _ = w.runKeep(votes)
+	return out
+}
+
+// runKeep is run, and also hands out the fork (the state after the votes and the end-blocker).
+func (w *wstate) runKeep(votes []vote) (out runOut, ctx sdk.Context) {
+	ctx = w.c.Fork(w.forkHeight, w.forkTime)
+	w.c.Log.Drain()
+	defer func() {
+		if e := recover(); e != nil {
+			out.Panic = fmt.Sprint(e)
+		}
+	}()
+	for _, v := range votes {
+		out.Votes = append(out.Votes, w.castVote(ctx, v))
+	}
+	var warn []string
+	out.EndEvents, warn = w.endBlock(ctx)
+	out.Warn = append(out.Warn, warn...)
+	out.Delta, out.Masked = w.delta(ctx, w.base)
+	out.Warn = append(out.Warn, w.drainWarn()...)
+	return out, ctx
+}
+
+// ---------------------------------------------------------------------------------------------
+// late votes: a vote that arrives in the block AFTER the one in which the nonce was observed
+
+// lateWorld is the state in which the honest validators have voted X and the end-blocker has
+// observed it (the fork of run H, kept), plus what the next block does there without any vote.
+type lateWorld struct {
+	post     sdk.Context                  // never written: every late run branches off it
+	snap     map[string]map[string][]byte // state of post
+	height   int64
+	time     time.Time
+	keyX     string // store key of the observed record
+	votersX  []string
+	ctrlEnd  []string          // end-block events of the next block without a late vote
+	ctrlDiff map[string]string // state delta of the next block without a late vote
+	ctrlX    lateOut           // the next block with the late voter voting X itself (the identical claim)
+}
+
+type lateOut struct {
+	Vote          voteOut           `json:"late_vote"`
+	EndEvents     []string          `json:"end_events"`
+	Delta         map[string]string `json:"delta"` // against the observed state, masked keys removed
+	VotersXAfter  []string          `json:"voters_of_observed_record_after"`
+	EventAttID    string            `json:"event_attestation_id,omitempty"` // the record the response event of the late vote names
+	EventAttFound bool              `json:"event_attestation_exists"`
+	EventAttVotes []string          `json:"event_attestation_voters,omitempty"`
+	Warn          []string          `json:"warn,omitempty"`
+	Panic         string            `json:"panic,omitempty"`
+}
+
+// votersOf decodes the attestation record under a skyway store key (hex) and returns its voters.
+func (w *wstate) votersOf(ctx sdk.Context, keyHex string) (voters []string, found bool) {
+	kb, err := hex.DecodeString(keyHex)
+	if err != nil {
+		return nil, false
+	}
+	bz := w.c.KVStore(ctx, skywaytypes.StoreKey).Get(kb)
+	if len(bz) == 0 {
+		return nil, false
+	}
+	var att skywaytypes.Attestation
+	if err := w.c.App.AppCodec().Unmarshal(bz, &att); err != nil {
+		return nil, false
+	}
+	return append([]string{}, att.Votes...), true
+}
+
+func (w *wstate) lateCtx(lw *lateWorld) sdk.Context {
+	cctx, _ := lw.post.CacheContext()
+	return cctx.WithBlockHeight(lw.height).WithBlockTime(lw.time)
+}
+
+// newLateWorld: post = the fork of the honest-only run (votes for X + end-blocker, X observed).
+func (w *wstate) newLateWorld(post sdk.Context, keyX string, lateX vote) (lw *lateWorld, err error) {
+	defer func() {
+		if e := recover(); e != nil {
+			err = fmt.Errorf("panic: %v", e)
+		}
+	}()
+	lw = &lateWorld{post: post, keyX: keyX, height: w.forkHeight + 1, time: w.forkTime.Add(2 * time.Second)}
+	if lw.height%50 == 0 { // keep the periodic jobs (batch building, nonce reset) out of the late block
+		lw.height = w.forkHeight
+	}
+	lw.snap = w.snapshot(post)
+	var found bool
+	if lw.votersX, found = w.votersOf(post, keyX); !found {
+		return nil, fmt.Errorf("observed record %s cannot be read back", keyX)
+	}
+	ctx := w.lateCtx(lw)
+	lw.ctrlEnd, _ = w.endBlock(ctx)
+	lw.ctrlDiff, _ = w.delta(ctx, lw.snap)
+	w.c.Log.Drain()
+	lw.ctrlX = w.late(lw, lateX)
+	return lw, nil
+}
+
+// late: the next block after the observation carries one vote (of a validator that has not voted
+// at this nonce yet), then the real skyway end-blocker.
+func (w *wstate) late(lw *lateWorld, v vote) (out lateOut) {
+	ctx := w.lateCtx(lw)
+	w.c.Log.Drain()
+	defer func() {
+		if e := recover(); e != nil {
+			out.Panic = fmt.Sprint(e)
+		}
+	}()
+	out.Vote = w.castVote(ctx, v)
+	if !out.Vote.Accepted {
+		// a refused message writes nothing (per-message atomicity): the block is the control block
+		out.Warn = append(out.Warn, w.drainWarn()...)
+		return out
+	}
+	// the record the response event names
+	for _, e := range out.Vote.Events {
+		if !strings.Contains(e, "EventClaim") {
+			continue
+		}
+		for _, p := range strings.Split(e, "\t") {
+			if strings.HasPrefix(p, "attestation_id=") {
+				id := strings.Trim(strings.TrimPrefix(p, "attestation_id="), "\"\\")
+				out.EventAttID = hex.EncodeToString([]byte(v.claim.GetChainReferenceId())) + id
+			}
+		}
+	}
+	if out.EventAttID != "" {
+		out.EventAttVotes, out.EventAttFound = w.votersOf(ctx, out.EventAttID)
+	}
+	out.VotersXAfter, _ = w.votersOf(ctx, lw.keyX)
+	var warn []string
+	out.EndEvents, warn = w.endBlock(ctx)
+	out.Warn = append(out.Warn, warn...)
+	out.Delta, _ = w.delta(ctx, lw.snap)
+	out.Warn = append(out.Warn, w.drainWarn()...)
 	return out
 }
 
